@@ -14,7 +14,7 @@ RULE = ("Hypothesis generates 0-8 harness-written entries whose original locatio
         "D+'bar'/z, D's parent, other volumes, '/'), dates with ties, a requested directory (cwd or "
         "argument, also '/'), --sort {default,date,path,none} and a reply from a grammar (indices, "
         "a-b ranges, commas, blanks, signs, letters, empty parts, reversed / duplicate / huge "
-        "ranges, empty reply). Oracle: listed multiset == entries with loc == D or under D + '/', "
+        "ranges, empty reply; rarely a list of 340-520 entries with a reply denoting all of it). Oracle: listed multiset == entries with loc == D or under D + '/', "
         "numbered 0..n-1, date order non-decreasing / path order non-decreasing in (path, date); "
         "for replies in the plain grammar (\\d+ | \\d+-\\d+, comma separated, optional blanks): all "
         "in range => restored set == entries PRINTED at those indices (payload digests at their "
@@ -77,6 +77,13 @@ def strategy_(draw, tier):
     if draw(st.integers(0, 9)) == 0:
         reply = ""
     fn_replies = [",".join(draw(st.lists(TOK, min_size=1, max_size=4))) for _ in range(6)]
+    if draw(st.integers(0, 59)) == 0:
+        # a LONG list and one reply that denotes all of it ("huge ranges" are part of the statement)
+        nmany = draw(st.sampled_from([340, 400, 520]))
+        ents = [dict(tdir=tds[0][0], base=tds[0][1], orig=base_dir + "/many/m%04d" % i, date=100 + i,
+                     kind="file") for i in range(nmany)
+                if tds[0][1] is None or base_dir.startswith(tds[0][1].rstrip("/") + "/")]
+        reply = "0-%d" % (len(ents) - 1) if ents else reply
     return {"layout": tw.layout, "uid": tw.uid, "ents": ents, "dir": base_dir, "req": req,
             "sort": draw(st.sampled_from([None, "date", "path", "none"])), "reply": reply,
             "fn_replies": fn_replies, "fn_len": draw(st.integers(1, 12))}
